@@ -35,6 +35,19 @@ from lib.vloop import drain, virtual_time
 NCB = 4   # callback objects: 0,1 plain functions; 2,3 bound methods
 
 
+class Runaway(BaseException):
+    """the implementation produced an absurd number of events in one history (runaway re-execution)"""
+
+
+class EvList(list):
+    LIMIT = 5000
+
+    def append(self, x) -> None:
+        if len(self) >= self.LIMIT:
+            raise Runaway()
+        super().append(x)
+
+
 class UserErr(Exception):
     def __init__(self, payload) -> None:
         super().__init__(str(payload))
@@ -88,7 +101,7 @@ class _CbHolder:
 class Runtime:
     def __init__(self, case, clock, loop) -> None:
         self.case, self.clock, self.loop = case, clock, loop
-        self.ev: list = []
+        self.ev: list = EvList()
         self.ev_seen = 0
         self.opi = 0
         self.jobs: list[JobBase | None] = []     # model index -> job object (None: not recoverable)
@@ -299,6 +312,12 @@ def run_history(case: dict) -> tuple[dict, list[dict], list]:
         asyncio.set_event_loop(loop)
         try:
             loop.run_until_complete(_run(case, clock, loop, rt, concrete_ops, obs))
+        except Runaway:
+            # cut the history here; the missing observations make it a disagreement and an oracle violation
+            concrete_ops.append(list(case['ops'][len(obs)]) if len(obs) < len(case['ops']) else ['wake'])
+            obs.append({'out': 'Runaway', 'enabled': True, 'timer': None, 'queue': [], 'jobs': [], 'store': [],
+                        'evs': list(rt.ev[rt.ev_seen:rt.ev_seen + 40]), 'now': clock.ns})
+            del concrete_ops[len(obs):]
         finally:
             asyncio.set_event_loop(None)
             from eascheduler.errors.handler import default_exception_handler
